@@ -198,3 +198,37 @@ func VerifC13TAReconfigure() {
 	verifAssert("C13.ta.container-resources-unchanged", verifSameViews(views, w.containerViews()))
 	verifAssert("C13.ta.pool-capacities-unchanged", supplies.same(w.supplySnapshot()))
 }
+
+// VerifC12TAMemoryPreserveUnderPressure: a memory.preserve container with a
+// symbolic memory limit on a machine with two NUMA nodes of symbolic capacity;
+// ordinary containers with symbolic limits are then admitted so that the
+// memory allocator has to widen zones. The preserved container is never told
+// memory nodes different from the ones it had.
+func VerifC12TAMemoryPreserveUnderPressure() {
+	_, _, ncpu := verifMachine(0)
+	allowed, reserved, isolated := verifSymbolicConstraints(ncpu, 0)
+	caps := []int64{verifNondetInt64("memcap"), verifNondetInt64("memcap")}
+	maxMem := int64(verifParam("maxMem", 1<<20))
+	for _, c := range caps {
+		verifAssume(verifAnd(c >= 1, c <= maxMem))
+	}
+	w := verifNewPolicyMem(0, caps, allowed, reserved, isolated, verifDefaultConfig())
+	c0 := w.newContainer(int64(verifParam("maxMilli", 500)))
+	c0.pod.annotations[cache.PreserveMemoryKey] = "true"
+	c0.memLimit = verifNondetInt64("memlimit")
+	verifAssume(verifAnd(c0.memLimit >= 0, c0.memLimit <= maxMem))
+	c0.mems = "0"
+	before := c0.mems
+	if err := w.p.AllocateResources(c0); err != nil {
+		return
+	}
+	verifCover("mem-preserve-created")
+	for k := 0; k < verifParam("ops", 2); k++ {
+		c := w.newContainer(int64(verifParam("maxMilli", 500)))
+		c.memLimit = verifNondetInt64("memlimit")
+		verifAssume(verifAnd(c.memLimit >= 0, c.memLimit <= maxMem))
+		w.p.AllocateResources(c)
+	}
+	verifCover("mem-preserve-pressure-done")
+	verifAssert("C12.ta.memory-preserve-mems-unchanged", c0.mems == before)
+}
